@@ -15,10 +15,13 @@ def add(pid, technique, text, note, design_ref=None):
     CHECKS[pid] = dict(technique=technique, text=text, note=note, design_ref=design_ref or f'DESIGN.md section 3, {pid}')
 
 
-from tools.manifest_table import TABLE, PENDING  # noqa: E402
+from tools.manifest_table import TABLE, PENDING, AUDIT  # noqa: E402
 
 for row in TABLE:
     add(*row)
+for pid, (extra, note) in AUDIT.items():
+    CHECKS[pid]['text'] = CHECKS[pid]['text'] + ' ' + extra
+    CHECKS[pid]['note'] = note
 
 all_ids = [json.loads(l)['id'] for l in open(os.path.join(VERIF, 'properties.jsonl'))]
 
